@@ -468,6 +468,54 @@ def _fmt_k8(entries, limit=2):
     return '; '.join(out)
 
 
+PAIR_OPS = ('reverse_view', 'query', 'drop')
+PARTNER = '/on-live-reverse-partner'
+
+SNAP_NAMES = ('package_count', 'tag_count', 'iter_packages', 'iter_tags', 'iter_packages_tags', 'iter_tags_packages')
+
+
+def snapshot(db):
+    """What the counting / iterating methods report right now (order-insensitive, plain data)."""
+    return (db.package_count(), db.tag_count(), sorted(db.iter_packages()), sorted(db.iter_tags()),
+            sorted((p, sorted(ts)) for p, ts in db.iter_packages_tags()),
+            sorted((t, sorted(ps)) for t, ps in db.iter_tags_packages()))
+
+
+def absent_of(model):
+    return frozenset(['~absent~']) | (model.tmax - model.pmax) | (model.pmax - model.tmax)
+
+
+def start_class(db):
+    """Shape of a collection at the moment reverse() builds a live view of it (public API only)."""
+    np_, nt = db.package_count(), db.tag_count()
+    if np_ == 0 and nt == 0:
+        return 'both-empty'
+    if nt == 0:
+        return 'no-tags'            # packages without any tag: the tag->packages dictionary is empty
+    if np_ == 0:
+        return 'no-packages'        # tag keys only (the reverse of the above): the package->tags dictionary is empty
+    if np_ == 1:
+        return 'single-package'
+    return 'general'
+
+
+_MIRROR = {'tags_of_package': 'packages_of_tag', 'iter_packages_tags': 'iter_tags_packages'}
+
+
+def mirror(rec):
+    """A record observed on the live reverse partner, restated for the object the operation ran on
+    (the partner's packages are this object's tags).  Only the two tag-set observations have an
+    image the known-defect classifier may look at; everything else is marked and never explained."""
+    q = rec[0]
+    if q in _MIRROR and rec[1] is not None:
+        return (_MIRROR[q], rec[1], rec[2], rec[3])
+    return ('@' + q, rec[1], rec[2], rec[3])
+
+
+def _swap(pairs):
+    return {(b, a) for a, b in pairs}
+
+
 def run_case(ctx, case):
     from debian import debtags
     DB = debtags.DB
@@ -475,8 +523,11 @@ def run_case(ctx, case):
     ops = case['ops']
     cur = DB()
     model = Rel()
-    absent_base = frozenset(['~absent~'])
+    partner = None              # a live DB obtained by reverse() from cur (or the DB cur was obtained from): the
+    pclass = None               # pair is symmetric while linked, so `model.reversed()` is the partner's reference
+    cur_is_view = False
     executed, kinds, many_to_many, derived = 0, set(), False, False
+    pair_steps, pair_inserts = 0, 0
 
     def prefix(i):
         return {'kind': 'hist', 'ops': ops[:i + 1]}
@@ -485,10 +536,17 @@ def run_case(ctx, case):
         kind = op['op']
         new_tags = ()
         ins_pkg = None
+        if partner is not None and op.get('on') == 'other':
+            # the operation addresses the other object of the live pair: swap roles
+            cur, partner = partner, cur
+            model = model.reversed()
+            cur_is_view = not cur_is_view
         # ---- domain guards (also make arbitrary replay files safe) ----------
         if kind == 'insert':
             ins_pkg = op['pkg']
             names_now = set(model.pmax) | set(model.tmax) | set(cur.iter_packages()) | set(cur.iter_tags())
+            if partner is not None:
+                names_now |= set(partner.iter_packages()) | set(partner.iter_tags())
             if ins_pkg in names_now or not ins_pkg or ins_pkg in op['tags']:
                 _skip(ctx, 'insert-name-not-fresh')
                 continue
@@ -497,10 +555,20 @@ def run_case(ctx, case):
             if not entries_ok(op['entries']):
                 _skip(ctx, 'read-input-outside-domain')
                 continue
-        elif kind not in DERIVATIONS:
+        elif kind == 'query':
+            if not op.get('names') or not all(isinstance(n, str) and n for n in op['names']):
+                _skip(ctx, 'query-without-names')
+                continue
+        elif kind == 'drop':
+            if partner is None:
+                _skip(ctx, 'drop-without-live-pair')
+                continue
+        elif kind not in DERIVATIONS and kind not in PAIR_OPS:
             raise ValueError('unknown op %r' % (kind,))
 
         # ---- the operation on the live object and on the model ---------------
+        prev_model = model
+        qfail = None
         try:
             if kind == 'insert':
                 cur.insert(ins_pkg, set(op['tags']))
@@ -525,6 +593,61 @@ def run_case(ctx, case):
                     cur.read(src, tf)
                 nmodel = Rel.from_lines([(e['pkgs'], e['tags']) for e in ents], tf)
                 nxt = cur
+            elif kind == 'reverse_view':
+                # v = cur.reverse(); BOTH objects stay alive (any earlier partner is dropped)
+                pclass = start_class(cur)
+                nv = cur.reverse()
+                if not isinstance(nv, DB):
+                    ctx.violation('derivation-does-not-return-DB-reverse', 'reverse returned %r' % (type(nv),), prefix(i))
+                    ctx.extra['histories_ended_early'] += 1
+                    return
+                partner = nv
+                cur_is_view = False
+                nxt, nmodel = cur, model
+                ctx.count('view-start:' + pclass)
+            elif kind == 'drop':
+                partner = None
+                nxt, nmodel = cur, model
+            elif kind == 'query':
+                # queries (mostly on names that are absent) must not change what the counting / iterating
+                # methods report afterwards - on this object and on its live reverse partner
+                objs = [('', cur)] + ([(PARTNER, partner)] if partner is not None else [])
+                before = [snapshot(o) for _, o in objs]
+                pkeys, tkeys = set(before[0][2]), set(before[0][3])
+                fwd, inv = model.fwd(), model.inv()
+                qrecs = []
+                for n in op['names']:
+                    got = cur.tags_of_package(n)
+                    if not isinstance(got, (set, frozenset)) or got != fwd.get(n, set()):
+                        qrecs.append(('tags_of_package', n, fwd.get(n, set()), got))
+                    hp = cur.has_package(n)
+                    if bool(hp) != (n in pkeys):
+                        qrecs.append(('has_package', n, n in pkeys, hp))
+                    got = cur.packages_of_tag(n)
+                    if not isinstance(got, (set, frozenset)) or got != inv.get(n, set()):
+                        qrecs.append(('packages_of_tag', n, inv.get(n, set()), got))
+                    ht = cur.has_tag(n)
+                    if bool(ht) != (n in tkeys):
+                        qrecs.append(('has_tag', n, n in tkeys, ht))
+                    c = cur.card(n)
+                    if c != len(inv.get(n, ())):
+                        qrecs.append(('card', n, len(inv.get(n, ())), c))
+                    ctx.count('q:absent-name-queries', 2 * (n not in pkeys) + 3 * (n not in tkeys))
+                    ctx.count('q:present-name-queries', 2 * (n in pkeys) + 3 * (n in tkeys))
+                after = [snapshot(o) for _, o in objs]
+                ctx.mon('M.query', len(objs))
+                if partner is not None:
+                    ctx.count('q:with-live-partner')
+                for (who, _o), b4, af in zip(objs, before, after):
+                    if b4 != af and qfail is None:
+                        j = [x != y for x, y in zip(b4, af)].index(True)
+                        qfail = ('%s-changed-by-queries%s' % (SNAP_NAMES[j], who),
+                                 'step %d: after tags_of_package / has_package / packages_of_tag / has_tag / card on %r '
+                                 '(package keys before: %r, tag keys before: %r) %s() reports %r, before the queries %r'
+                                 % (i, op['names'], sorted(pkeys), sorted(tkeys), SNAP_NAMES[j], af[j], b4[j]))
+                if qfail is None and qrecs:
+                    qfail = ('%s-disagrees-with-reference-in-query-step' % qrecs[0][0], 'step %d: %s' % (i, _fmt_recs(qrecs)))
+                nxt, nmodel = cur, model
             elif kind in ('reverse', 'reverse_copy'):
                 nxt = getattr(cur, kind)()
                 nmodel = model.reversed()
@@ -571,74 +694,184 @@ def run_case(ctx, case):
             ctx.violation('derivation-does-not-return-DB-%s' % kind, '%s returned %r' % (kind, type(nxt)), prefix(i))
             ctx.extra['histories_ended_early'] += 1
             return
+        if kind in DERIVATIONS:
+            partner = None          # a derivation continues the chain from its result; live relatives are dropped
         cur, model = nxt, nmodel
         executed += 1
         kinds.add(kind)
-        derived = derived or kind in DERIVATIONS
+        derived = derived or kind in DERIVATIONS or kind == 'reverse_view'
         ctx.count('op:' + kind)
+        if partner is not None:
+            pair_steps += 1
+            ctx.count('pair:op:' + kind)
+            if kind == 'insert':
+                pair_inserts += 1
+                ctx.count('pair:insert/' + pclass)
+                ctx.count('pair:insert-on-' + ('view' if cur_is_view else 'original'))
+                if len(ins_pkg) > 1:
+                    ctx.count('pair:insert-multichar-name')
+        if qfail is not None:
+            K8_LOG[:] = []
+            ctx.violation(qfail[0], qfail[1], prefix(i))
+            ctx.extra['histories_ended_early'] += 1
+            break
 
         # ---- monitors ---------------------------------------------------------
         k8 = list(K8_LOG)
         K8_LOG[:] = []
-        absent = absent_base | (frozenset(model.tmax) - frozenset(model.pmax)) | (frozenset(model.pmax) - frozenset(model.tmax))
+        absent = absent_of(model)
         ctx.mon('M')
         recs = compare(cur, model, absent)
         many_to_many = many_to_many or model.shared_tag()
-        if not recs and not k8:
-            continue
-
-        # ---- classification ---------------------------------------------------
-        first, rest, k8_rest, k8_ins = {}, recs, k8, []
-        # insert and facet_collection (which builds its result through insert) are where the known mechanism can
-        # show; any other operation only if K8 itself saw a known-shaped insert inside it
-        if kind in ('insert', 'facet_collection') or (k8_usable() and any(e['where'] == 'insert' and e['known'] for e in k8)):
-            k8_ins = [e for e in k8 if e['where'] == 'insert' and e['known']]
-            k8_rest = [e for e in k8 if e['where'] == 'insert' and not e['known']]
-            k8_first = None
+        precs, pk8, pmodel = [], [], None
+        if partner is not None:
+            # the live partner against the swapped reference; a read() on one object of the pair is the one
+            # place where the statement is silent about the other: it may keep the old relation (the
+            # implementation as written: read rebinds) or follow the new one - either is accepted
+            pmodel = prev_model.reversed() if kind == 'read' else model.reversed()
+            ctx.mon('M.pair')
+            precs = compare(partner, pmodel, absent_of(pmodel))
+            if kind == 'read':
+                if precs:
+                    alt = model.reversed()
+                    if not compare(partner, alt, absent_of(alt)):
+                        precs, pmodel = [], alt
+                        ctx.count('pair:read-partner-follows')
+                if not precs:
+                    ctx.count('pair:read-partner-keeps' if pmodel is not None and pmodel.pairs == prev_model.reversed().pairs
+                              else 'pair:read-partner-other')
             if k8_usable():
-                k8_first = {}
-                for e in k8_ins:
-                    for t in e['new_tags']:
-                        k8_first.setdefault(t, set()).add(e['pkg'])
-            for e in k8:          # a returned collection may only show what its known inserts left behind
-                if e['where'] == 'insert':
-                    continue
+                for who, o in (('object', cur), ('partner', partner)):
+                    try:
+                        m, e = _mismatch(o.db, o.rdb)
+                    except AttributeError:
+                        _k8_detach()
+                        break
+                    ctx.mon('K8.pair')
+                    if m or e:
+                        pk8.append({'where': 'pair-step/' + kind, 'who': who, 'obj': id(o), 'missing': m, 'extra': e})
+
+        if recs or k8 or precs or pk8:
+            # ---- classification -----------------------------------------------
+            first, rest, k8_rest, k8_ins = {}, recs, k8, []
+            prest, pk8_rest = precs, pk8
+            # insert and facet_collection (which builds its result through insert) are where the known mechanism can
+            # show; any other operation only if K8 itself saw a known-shaped insert inside it
+            if kind in ('insert', 'facet_collection') or (k8_usable() and any(e['where'] == 'insert' and e['known'] for e in k8)):
+                k8_ins = [e for e in k8 if e['where'] == 'insert' and e['known']]
+                k8_rest = [e for e in k8 if e['where'] == 'insert' and not e['known']]
+                k8_first = None
+                if k8_usable():
+                    k8_first = {}
+                    for e in k8_ins:
+                        for t in e['new_tags']:
+                            k8_first.setdefault(t, set()).add(e['pkg'])
+                for e in k8:          # a returned collection may only show what its known inserts left behind
+                    if e['where'] == 'insert':
+                        continue
+                    dm, de = set(), set()
+                    for x in k8_ins:
+                        if x['obj'] == e['obj']:
+                            dm |= x['missing']
+                            de |= x['extra']
+                    if not (e['missing'] <= dm and e['extra'] <= de):
+                        k8_rest.append(e)
+                # the partner shares the corrupted set: its tags_of_package / iter_packages_tags observations are
+                # restated as this object's packages_of_tag / iter_tags_packages and must show the SAME value
+                back = {}
+                mirrored = []
+                for rec in precs:
+                    mrec = mirror(rec)
+                    back[id(mrec)] = rec
+                    mirrored.append(mrec)
+                first, rest_all = explain_known(recs + mirrored, model.inv(), kind, ins_pkg, new_tags, k8_first)
+                rest = [x for x in rest_all if id(x) not in back]
+                prest = [back[id(x)] for x in rest_all if id(x) in back]
                 dm, de = set(), set()
                 for x in k8_ins:
-                    if x['obj'] == e['obj']:
+                    if x['obj'] == id(cur):
                         dm |= x['missing']
                         de |= x['extra']
-                if not (e['missing'] <= dm and e['extra'] <= de):
-                    k8_rest.append(e)
-            first, rest = explain_known(recs, model.inv(), kind, ins_pkg, new_tags, k8_first)
-        if first or k8_ins:
-            t0 = sorted(first)[0] if first else k8_ins[0]['new_tags'][0]
-            q0 = first[t0] if first else k8_ins[0]['pkg']
-            ctx.violation(KNOWN_KEY,
-                          '%s: tag %r was not present; the package inserted first under it is %r, but '
-                          'packages_of_tag(%r) = %r - the characters of the name - where the reference relation has %r '
-                          '(tags_of_package(%r) does list the tag, so db and rdb are no longer inverse). %s'
-                          % (kind, t0, q0, t0, sorted(cur.packages_of_tag(t0)), sorted(model.inv().get(t0, ())), q0,
-                             _fmt_k8([e for e in k8_ins if t0 in e['new_tags']] or k8_ins, 1)), prefix(i))
-            ctx.count('known-defect-at:' + kind)
-        if rest:
-            key = '%s-disagrees-with-reference-after-%s' % (rest[0][0], kind)
-            ctx.violation(key, 'step %d (%s): %s%s' % (i, kind, _fmt_recs(rest),
-                                                       ('; ' + _fmt_k8(k8_rest)) if k8_rest else ''), prefix(i))
-        elif k8_rest:
-            ctx.violation('indexes-not-inverse-after-%s' % k8_rest[0]['where'],
-                          'step %d (%s): %s' % (i, kind, _fmt_k8(k8_rest)), prefix(i))
-        if rest or k8_rest or not k8_usable():
-            # something other than the known mechanism (or no way to repair): the state is not trusted any more
-            ctx.extra['histories_ended_early'] += 1
-            break
-        # only the known mechanism: repair the harness's view - continue from a DB holding the reference relation
-        cur = rebuild(DB, model, cur.iter_packages(), cur.iter_tags())
-        again = compare(cur, model, absent)
-        if again or any(_mismatch(cur.db, cur.rdb)):
-            raise RuntimeError('harness: rebuilt DB disagrees with the reference: %s' % _fmt_recs(again))
-        ctx.extra['known_defect_repairs'] += 1
+                pk8_rest = []
+                for e in pk8:
+                    if e['who'] == 'object':
+                        ok = e['missing'] <= dm and e['extra'] <= de
+                    else:
+                        ok = e['missing'] <= _swap(de) and e['extra'] <= _swap(dm)
+                    if not ok:
+                        pk8_rest.append(e)
+            if first or k8_ins:
+                t0 = sorted(first)[0] if first else k8_ins[0]['new_tags'][0]
+                q0 = first[t0] if first else k8_ins[0]['pkg']
+                ctx.violation(KNOWN_KEY,
+                              '%s: tag %r was not present; the package inserted first under it is %r, but '
+                              'packages_of_tag(%r) = %r - the characters of the name - where the reference relation has %r '
+                              '(tags_of_package(%r) does list the tag, so db and rdb are no longer inverse). %s'
+                              % (kind, t0, q0, t0, sorted(cur.packages_of_tag(t0)), sorted(model.inv().get(t0, ())), q0,
+                                 _fmt_k8([e for e in k8_ins if t0 in e['new_tags']] or k8_ins, 1)), prefix(i))
+                ctx.count('known-defect-at:' + kind)
+                if partner is not None:
+                    ctx.count('known-defect-with-live-partner')
+            if rest:
+                key = '%s-disagrees-with-reference-after-%s' % (rest[0][0], kind)
+                ctx.violation(key, 'step %d (%s): %s%s' % (i, kind, _fmt_recs(rest),
+                                                           ('; ' + _fmt_k8(k8_rest)) if k8_rest else ''), prefix(i))
+            elif prest:
+                key = '%s-disagrees-with-reference-after-%s%s' % (prest[0][0], kind, PARTNER)
+                ctx.violation(key, 'step %d (%s on the %s of a live db/db.reverse() pair; observed on the OTHER object): %s%s'
+                              % (i, kind, 'view' if cur_is_view else 'original', _fmt_recs(prest),
+                                 ('; ' + _fmt_k8(pk8_rest)) if pk8_rest else ''), prefix(i))
+            elif k8_rest:
+                ctx.violation('indexes-not-inverse-after-%s' % k8_rest[0]['where'],
+                              'step %d (%s): %s' % (i, kind, _fmt_k8(k8_rest)), prefix(i))
+            elif pk8_rest:
+                ctx.violation('indexes-not-inverse-after-%s%s' % (kind, PARTNER if pk8_rest[0]['who'] == 'partner' else '/in-live-reverse-pair'),
+                              'step %d (%s): on the %s: %s' % (i, kind, pk8_rest[0]['who'], _fmt_k8(pk8_rest)), prefix(i))
+            if rest or prest or k8_rest or pk8_rest or not k8_usable():
+                # something other than the known mechanism (or no way to repair): the state is not trusted any more
+                ctx.extra['histories_ended_early'] += 1
+                break
+            # only the known mechanism: repair the harness's view and continue
+            if partner is None:
+                # chain: continue from a DB holding the reference relation
+                cur = rebuild(DB, model, cur.iter_packages(), cur.iter_tags())
+                again = compare(cur, model, absent)
+                if again or any(_mismatch(cur.db, cur.rdb)):
+                    raise RuntimeError('harness: rebuilt DB disagrees with the reference: %s' % _fmt_recs(again))
+            else:
+                # live pair: the objects (and whatever they share) must stay the ones the library made, so the
+                # corrupted package sets are corrected IN PLACE (public dict attribute of the object inserted into)
+                inv = model.inv()
+                bad = set(first)
+                for x in k8_ins:
+                    if x['obj'] == id(cur):
+                        bad.update(x['new_tags'])
+                for t in sorted(bad):
+                    s = cur.rdb.get(t)
+                    if isinstance(s, set):
+                        s.clear()
+                        s.update(inv.get(t, ()))
+                pm = model.reversed()
+                again = compare(cur, model, absent)
+                pagain = compare(partner, pm, absent_of(pm))
+                if again or pagain or any(_mismatch(cur.db, cur.rdb)) or any(_mismatch(partner.db, partner.rdb)):
+                    ctx.violation('live-reverse-pair-diverges-after-known-insert-defect',
+                                  'step %d (%s): after correcting in place the package sets the known insert defect left '
+                                  'under %r, object: %s; partner: %s' % (i, kind, sorted(bad), _fmt_recs(again) or 'agrees',
+                                                                        _fmt_recs(pagain) or 'agrees'), prefix(i))
+                    ctx.extra['histories_ended_early'] += 1
+                    break
+            ctx.extra['known_defect_repairs'] += 1
 
+        # ---- after a read() on one object of a live pair the pair ends: continue with one of the two ----------
+        if kind == 'read' and partner is not None:
+            if op.get('keep') == 'other':
+                cur, model = partner, pmodel
+                cur_is_view = not cur_is_view
+            partner = None
+
+    if pair_steps >= 2 and pair_inserts >= 1:
+        ctx.count('hist:live-pair-with-insert')
     if executed >= 3 and len(kinds) >= 2 and derived and many_to_many:
         ctx.nontrivial()
 
